@@ -551,6 +551,7 @@ struct Tot {
     pairs_ok: u64,
     pairs_acc_eq_acc: u64,
     pairs_acc_eq_legacy: u64,
+    pair_flags_ok: [u64; flag::COUNT],
     viol: BTreeMap<String, (u64, Value)>,
     keys: HashSet<u128>,
 }
@@ -716,6 +717,8 @@ struct PairAcc {
     ok: u64,
     acc_eq_acc: u64,
     acc_eq_legacy: u64,
+    /// pairs with Ok apply per change tag (vacuity evidence)
+    flags_ok: [u64; flag::COUNT],
     /// symptom -> (op-kind bits, case) occurrences
     bad: Vec<(&'static str, u8, CaseId)>,
 }
@@ -748,6 +751,12 @@ fn pair_phase(r: &Report, t: &mut Tot, uni: &Uni, maxd: Option<u32>) {
                 let ev = eval_pair(&uni.u, a, &pre[ai].real, b, &pre[bi].real, &pre[bi].root);
                 let Some(st) = &ev.result else { continue };
                 acc.ok += 1;
+                let fl = pair_flags(a, b);
+                for i in 0..flag::COUNT {
+                    if fl & (1 << i) != 0 {
+                        acc.flags_ok[i] += 1;
+                    }
+                }
                 let rk = pre[bi].root_key;
                 let legacy = hooks::snapshot::state_root(st, &rk);
                 let case = CaseId {
@@ -796,6 +805,9 @@ fn pair_phase(r: &Report, t: &mut Tot, uni: &Uni, maxd: Option<u32>) {
     for p in parts {
         pairs += p.pairs;
         ok += p.ok;
+        for i in 0..flag::COUNT {
+            t.pair_flags_ok[i] += p.flags_ok[i];
+        }
         t.pairs_acc_eq_acc += p.acc_eq_acc;
         t.pairs_acc_eq_legacy += p.acc_eq_legacy;
         bad.extend(p.bad);
@@ -914,6 +926,7 @@ fn new_tot() -> Tot {
         pairs_ok: 0,
         pairs_acc_eq_acc: 0,
         pairs_acc_eq_legacy: 0,
+        pair_flags_ok: [0; flag::COUNT],
         viol: BTreeMap::new(),
         keys: HashSet::new(),
     }
@@ -997,6 +1010,15 @@ fn main() {
     r.guard("wsc_roundtrips>0", t.wsc_instances > 0);
     r.guard("pairs_with_ok_apply>0", t.pairs_ok > 0);
     r.guard("accumulator_compared>0", t.acc_total > 0);
+    let mut tags = serde_json::Map::new();
+    for i in 0..flag::COUNT {
+        tags.insert(FLAG_NAMES[i].to_string(), json!(t.pair_flags_ok[i]));
+    }
+    r.note("accumulator_pairs_by_change_tag", Value::Object(tags));
+    for name in ["edge-reparent", "node-delete-with-incident-edges", "portal-open", "portal-close", "instance-delete", "instance-create", "edge-delete+attachment"] {
+        let i = FLAG_NAMES.iter().position(|n| *n == name).unwrap_or(0);
+        r.guard(&format!("accumulator_pairs_with_{name}>0"), t.pair_flags_ok[i] > 0);
+    }
 
     for (sig, (n, detail)) in &t.viol {
         r.violation(sig, detail.clone());
